@@ -252,6 +252,10 @@ def guard_of_panic(prog, body, bb):
 PREMISE_PROG = None     # premises are evaluated on the dev-profile program (their rules read dev MIR shapes)
 
 
+_SUB_CACHE = {}
+_SUB_KEEP = []      # keeps the programs alive so that ids are not reused
+
+
 def sub_check(prog, module, rules=None):
     """run another property's rule set on this tree as a lemma premise; -> (ok, failing keys)"""
     import importlib
@@ -259,11 +263,17 @@ def sub_check(prog, module, rules=None):
     if PREMISE_PROG is not None:
         prog = PREMISE_PROG
     mod = importlib.import_module("rules." + module)
-    sub = Check(module.upper(), "quick", "other", 0)
-    try:
-        mod.run(prog, sub, "quick")
-    except Exception as e:
-        return False, ["%s: %s" % (type(e).__name__, e)]
+    ck = (id(prog), module)
+    sub = _SUB_CACHE.get(ck)
+    if sub is None:
+        # (one evaluation per rule set and program: several lemmas use the same premises)
+        sub = Check(module.upper(), "quick", "other", 0)
+        try:
+            mod.run(prog, sub, "quick")
+        except Exception as e:
+            return False, ["%s: %s" % (type(e).__name__, e)]
+        _SUB_CACHE[ck] = sub
+        _SUB_KEEP.append(prog)
     bad = [o for o in sub.obs if not o["ok"] and (rules is None or o["rule"] in rules)]
     n = sum(1 for o in sub.obs if (rules is None or o["rule"] in rules))
     if n == 0:
@@ -483,32 +493,42 @@ class Lemmas:
 
     # ---- L2: an accepted message body is tiled by (RawAttribute::from_bytes, padded_len)
     def prem_L2(self):
-        fb = walker_facts(self.prog, FROM_BYTES)
-        vi = walker_facts(self.prog, VALIDATE)
         msgs = []
-        for f, nm in ((fb, "from_bytes"), (vi, "validate_integrity")):
-            if f["raw_calls"] != 1:
-                msgs.append("%s: expected exactly one RawAttribute::from_bytes call in its loop, found %d" % (nm, f["raw_calls"]))
-            if f["advance_sites"] != 1 or f["advance_ok"] != 1:
-                msgs.append("%s: the walk does not advance by padded_len of the attribute just parsed (%d/%d)" % (nm, f["advance_ok"], f["advance_sites"]))
-            if f["starts"] != [20]:
-                msgs.append("%s: the walk does not start at offset 20 (starts=%s)" % (nm, f["starts"]))
+        # the parser tiles the buffer it accepts (C02: scripted walk) ...
+        ok, bad = sub_check(self.prog, "c02", rules={"tiling", "length-agreement"})
+        if not ok:
+            msgs.append("C02 tiling / length agreement fails: %s" % bad)
+        # ... and the inspection walk steps over the same buffer the same way (ghost-based inductive check)
+        from rules import walk_e2 as W
+
+        class _C:
+            def __init__(s_):
+                s_.bad = []
+
+            def ob(s_, rule, inst, ok_, loc=None, detail=None, how=None, where=None):
+                if not ok_:
+                    s_.bad.append("%s (%s)" % (inst, detail))
+                return ok_
+
+            def fail(s_, rule, inst, loc=None, detail=None):
+                s_.bad.append("%s (%s)" % (inst, detail))
+
+            def floor(s_, *a):
+                pass
+        c_ = _C()
+        W.tiling_walk(self.prog, c_, "tiling", VALIDATE, "in:self_data", 20, "validate_integrity")
+        msgs += c_.bad
         # the parser's own advance is discharged by the domain (its guard `padded_len > data.len()` refuses first)
         for (body, bb, idx), rec in self.an.source.items():
             if body.startswith(FROM_BYTES) and rec["kind"] == "index:start" and any(not c[0] for c in rec["ctx"]):
                 msgs.append("from_bytes: its own `&data[padded_len..]` is not discharged")
-        # both walk Message.data: validate_integrity starts from self.data, from_bytes returns the slice it walked
-        if not any("field" in s and "data" in s for s in vi["base"]):
-            msgs.append("validate_integrity does not walk self.data: %s" % vi["base"])
         sites = e1.construct_sites(self.prog, MSG)
         where = {s["body"] for s in sites}
         allowed = {FROM_BYTES, FROM_BYTES + "::{closure#0}", "<stun_types::message::Message<'a> as std::clone::Clone>::clone"}
         if not where <= allowed:
             msgs.append("Message is constructed outside from_bytes/clone: %s" % sorted(where - allowed))
-        # Ok is returned only when the remainder is empty: the loop exit is the `is_empty` test (checked by C02 tiling rule if present)
-        return (not msgs), ("; ".join(msgs) if msgs else "both walkers step by (RawAttribute::from_bytes, padded_len) from offset 20 over Message.data; the parser refuses an over-long attribute before advancing; Message is constructed only by from_bytes/clone")
+        return (not msgs), ("; ".join(msgs) if msgs else "the parser accepts only buffers tiled by attributes from offset 20 (C02 scripted walk); validate_integrity decodes each attribute where the previous one's padded extent ended, from offset 20 of self.data; the parser refuses an over-long attribute before advancing; Message is constructed only by from_bytes/clone")
 
-    # ---- L3: the scan in validate_integrity finds the attribute raw_attribute() returned
     def prem_L3(self):
         ok2, d2 = self.premise("L2")
         if not ok2:
